@@ -192,6 +192,22 @@ _PROP = re.compile(r"Error: (?:Action property|Temporal properties?) (.*?) (?:is
 _COV = re.compile(r"^<(\w+) line \d+, col \d+ to line \d+, col \d+ of module (\w+)>: (\d+):(\d+)")
 
 
+def _sweep_stale_metadirs() -> None:
+    """TLC state directories of checks that were killed (OOM, timeout of an outer harness) are never cleaned by their owner:
+    remove those whose owning process is gone (the pid is part of the directory name)."""
+    base = tempfile.gettempdir()
+    try:
+        names = os.listdir(base)
+    except OSError:
+        return
+    for name in names:
+        m = re.match(r"verif-tlc-(\d+)-", name)
+        if not m:
+            continue
+        if not os.path.exists("/proc/%s" % m.group(1)):
+            shutil.rmtree(os.path.join(base, name), ignore_errors=True)
+
+
 def run_tlc(
     module: str,
     cfg: str,
@@ -213,7 +229,8 @@ def run_tlc(
     on_json: Any = None,
 ) -> TLCResult:
     """Run TLC on spec_dir/module.tla with spec_dir/cfg. Returns a TLCResult; raises nothing for TLC-level errors."""
-    meta = tempfile.mkdtemp(prefix="verif-tlc-")
+    _sweep_stale_metadirs()
+    meta = tempfile.mkdtemp(prefix="verif-tlc-%d-" % os.getpid())
     cmd = ["java", "-XX:+UseParallelGC", "-Xss" + xss]
     if heap:
         cmd.append("-Xmx" + heap)
